@@ -114,6 +114,7 @@ type Ctx struct {
 	fieldMemo map[string]map[[2]int]*Term
 	quantMemo map[int]bool
 	varMemo   map[int]bool
+	i2bMemo   map[[2]int]*Term
 }
 
 type DefFun struct {
@@ -248,6 +249,19 @@ func (c *Ctx) App(name string, res Sort, args ...*Term) *Term {
 		if strings.HasPrefix(name, "(_ int2bv ") && res.IsBV() {
 			if a.Kind == KApp && a.Op == "bv2nat" && a.Args[0].Sort == res {
 				return a.Args[0]
+			}
+			if a.Kind == KApp && a.Op == "ite" && len(a.Args) == 3 {
+				// int2bv(ite(c, x, y)) = ite(c, int2bv(x), int2bv(y)): exposes round trips below the branches
+				if c.i2bMemo == nil {
+					c.i2bMemo = map[[2]int]*Term{}
+				}
+				key := [2]int{res.BVWidth(), a.ID}
+				if r, ok := c.i2bMemo[key]; ok {
+					return r
+				}
+				r := c.Ite(a.Args[0], c.App(name, res, a.Args[1]), c.App(name, res, a.Args[2]))
+				c.i2bMemo[key] = r
+				return r
 			}
 			if n, ok := a.IntVal(); ok && res.BVWidth() <= 64 {
 				m := new(big.Int).Mod(n, new(big.Int).Lsh(big.NewInt(1), uint(res.BVWidth())))
@@ -451,6 +465,10 @@ func (c *Ctx) Ite(cond, a, b *Term) *Term {
 			return c.Not(cond)
 		}
 	}
+	if a.Sort == Int && isBV2Nat(a) && isBV2Nat(b) && a.Args[0].Sort == b.Args[0].Sort {
+		// ite(c, bv2nat(x), bv2nat(y)) = bv2nat(ite(c, x, y))
+		return c.App("bv2nat", Int, c.Ite(cond, a.Args[0], b.Args[0]))
+	}
 	return c.mk(KApp, "ite", a.Sort, cond, a, b)
 }
 
@@ -499,6 +517,14 @@ func (c *Ctx) Eq(a, b *Term) *Term {
 			return c.Not(a)
 		}
 	}
+	if a.ID > b.ID {
+		a, b = b, a
+	}
+	return c.mk(KApp, "=", Bool, a, b)
+}
+
+// EqRaw builds an equation without the bridge rewriting of Eq (used for the defining equation of a leaf's bit-vector).
+func (c *Ctx) EqRaw(a, b *Term) *Term {
 	if a.ID > b.ID {
 		a, b = b, a
 	}
